@@ -261,10 +261,14 @@ impl<'a> FmtVisitor<'a> {
             Indent::from_width(self.config, last_line_width(&self.buffer))
         };
 
-        let comment_width = ::std::cmp::min(
-            self.config.comment_width(),
-            self.config.max_width() - self.block_indent.width(),
-        );
+        // The indentation alone may already exceed `max_width`.
+        let comment_width = self
+            .config
+            .max_width()
+            .checked_sub(self.block_indent.width())
+            .map_or(self.config.comment_width(), |width| {
+                ::std::cmp::min(self.config.comment_width(), width)
+            });
         let comment_shape = Shape::legacy(comment_width, comment_indent);
 
         if on_same_line {
